@@ -1137,6 +1137,36 @@ func c18g(c *Ctx) {
 			readersFirstIter[n] = guardOf(f)
 		}
 	}
+	// lexer methods that read at least one character on every path to a return: a call of
+	// readChar outside a loop, or of another such method, lies on every path (fixpoint)
+	mustConsume := map[*ssa.Function]bool{}
+	for changed := true; changed; {
+		changed = false
+		for _, f := range c.W.FuncsOf("lexer") {
+			if mustConsume[f] || f == rc || len(f.Blocks) == 0 || f.Signature.Recv() == nil {
+				continue
+			}
+			isCons := func(in ssa.Instruction) bool {
+				ci, ok := in.(ssa.CallInstruction)
+				if !ok {
+					return false
+				}
+				g := callee(ci)
+				return g != nil && ((g == rc && !isInLoopRegion(in.Block())) || mustConsume[g])
+			}
+			free := false
+			for _, r := range returnsOf(f) {
+				rr := r
+				if _, ok := existsPath(pathQuery{from: point{f.Blocks[0], 0}, avoid: isCons, target: func(in ssa.Instruction) bool { return in == ssa.Instruction(rr) }}); ok {
+					free = true
+				}
+			}
+			if !free && len(returnsOf(f)) > 0 {
+				mustConsume[f] = true
+				changed = true
+			}
+		}
+	}
 	stripVer := func(s string) string { return regexpMust(`![A-Za-z0-9@_]+`).ReplaceAllString(s, "") }
 	// which reader calls are guaranteed to read at least one character
 	guaranteed := map[ssa.Instruction]string{}
@@ -1149,7 +1179,10 @@ func c18g(c *Ctx) {
 		switch {
 		case g == rc && !isInLoopRegion(in.Block()):
 			guaranteed[in] = "readChar"
-		case g.Name() == "readStringToken" || g.Name() == "readRaw":
+		case mustConsume[g]:
+			guaranteed[in] = g.Name() + " reads at least one character on every path"
+		case g.Name() == "readStringToken":
+			// called on the opening quote, which is the guard of readString's outer loop
 			guaranteed[in] = g.Name() + " consumes the opening delimiter"
 		default:
 			guards, ok := readersFirstIter[g.Name()]
